@@ -127,6 +127,44 @@ func step(ws []string) string {
 			util.Fail(fmt.Sprintf("invalid IP of length %d converts to %s", len(ip), saStr(sa)))
 		}
 		return saStr(sa) + " " + bs
+	case "convunix": // convunix <hex network> <hex name>: a Unix-domain address through NetAddrToSockaddr and back
+		netw, name := string(util.UnHex(ws[1])), string(util.UnHex(ws[2]))
+		supported := netw == "unix" || netw == "unixgram" || netw == "unixpacket"
+		reply := "sa=panic back=nil"
+		func() {
+			defer func() {
+				if r := recover(); r != nil {
+					util.Fail(fmt.Sprintf("C17: conversion of the Unix address {%q %q} panicked: %v", netw, name, r))
+				}
+			}()
+			sa := socket.NetAddrToSockaddr(&net.UnixAddr{Net: netw, Name: name})
+			if sa == nil {
+				if supported {
+					util.Fail(fmt.Sprintf("C17: the Unix address {%q %q} does not convert", netw, name))
+				}
+				reply = "sa=nil back=nil"
+				return
+			}
+			if u, ok := sa.(*unix.SockaddrUnix); ok && u == nil {
+				util.Fail(fmt.Sprintf("C17: the unsupported network %q yields a non-nil result holding a nil pointer instead of nil", netw))
+				reply = "sa=typed-nil back=nil"
+				return
+			}
+			if !supported {
+				util.Fail(fmt.Sprintf("C17: the unsupported network %q converts to %s", netw, saStr(sa)))
+			}
+			back := "back=nil"
+			if a, ok := socket.SockaddrToTCPOrUnixAddr(sa).(*net.UnixAddr); ok && a != nil {
+				back = "back=unix:" + util.Hex([]byte(a.Name))
+				if a.Name != name {
+					util.Fail(fmt.Sprintf("C17: round trip changed the Unix name %q into %q", name, a.Name))
+				}
+			} else if supported {
+				util.Fail(fmt.Sprintf("C17: the Unix address {%q %q} does not convert back", netw, name))
+			}
+			reply = saStr(sa) + " " + back
+		}()
+		return reply
 	case "itod":
 		n, _ := strconv.ParseUint(ws[1], 10, 64)
 		s := socket.VerifItod(uint(n))
@@ -258,6 +296,8 @@ func main() {
 				}
 				fmt.Fprintf(&b, "%s %s %s %d %s\n", op, ip, isNil, r.Pick(0, 1, 80, 65535, r.Intn(65536)), util.Hex([]byte(z)))
 			}
+			fmt.Fprintf(&b, "convunix %s %s\n", util.Hex([]byte([]string{"unix", "unixgram", "unixpacket", "", "unixfoo", "tcp", "udp", "UNIX", "unix "}[r.Intn(9)])),
+				util.Hex([]byte([]string{"/tmp/a.sock", "", "@abstract", "rel/x.sock", "/tmp/\x00z"}[r.Intn(5)])))
 			fmt.Fprintf(&b, "itod %d\n", r.Pick(0, 1, 9, 10, 77777, 1<<24-1, 1<<32-1, r.Intn(1<<31)))
 			fmt.Fprintf(&b, "dtoi %s\n", util.Hex([]byte(zoneOf()+[]string{"", "x", "9"}[r.Intn(3)])))
 			fmt.Fprintf(&b, "zone2int %s\n", util.Hex([]byte(zoneOf())))
